@@ -376,7 +376,12 @@ def main():
             if old is not None:
                 searcher.FAMILIES[prop] = old
             extra = [x for x in extra if not x.get('kind', '').startswith('searcher cross-check')]
-            extra.append(dict(kind='bounded stand-in for the functions not under contract (NOT proof)', summary=ssum, failing_input=fi, standin_violation=fi is not None))
+            entry = dict(kind='bounded stand-in for the functions not under contract (NOT proof)', summary=ssum, failing_input=fi, standin_violation=fi is not None)
+            bad = [r for r in ssum.get('runs', []) if r.get('error') is not None]
+            if bad and fi is None:
+                # a searcher run that crashed explored nothing: do not let it pass for "nothing found"
+                entry['undecided'] = 'bounded stand-in could not run: %s' % '; '.join('%s: %r' % (r.get('family'), r.get('error')) for r in bad)
+            extra.append(entry)
         except Exception as ex:
             extra.append(dict(kind='bounded stand-in', error=repr(ex), undecided='bounded stand-in could not run: %r' % (ex,)))
     return verdict(prop, tier, seed, pdef, results, extra, time.time() - t0)
